@@ -35,7 +35,7 @@ IMPORTS = ['Coq.Lists.List', 'Coq.Strings.String', 'Coq.NArith.NArith', 'Coq.ZAr
            'SV.Bin.LE', 'SV.Bin.Struct', 'SV.Bin.RLE', 'SV.Bin.FindInsert', 'SV.Fmt.BspFormatsSpec', 'SV.Gen.BspFormats_gen']
 IMPORTS_GLUE = ['Coq.Lists.List', 'Coq.Strings.String', 'Coq.NArith.NArith', 'Coq.ZArith.ZArith', 'Coq.Bool.Bool',
                 'SV.Bin.LE', 'SV.Bin.Struct', 'SV.Bin.RLE', 'SV.Fmt.BspFormatsSpec', 'SV.Fmt.BspVisRow', 'SV.Fmt.BspTexStrings',
-                'SV.Fmt.BspRecords', 'SV.Gen.BspFormats_gen', 'SV.Gen.BspGlue_gen']
+                'SV.Fmt.BspRecords', 'SV.Fmt.VmfText', 'SV.Fmt.BspEntLump', 'SV.Gen.BspFormats_gen', 'SV.Gen.BspGlue_gen']
 PRE = '''Import ListNotations. Open Scope string_scope. Open Scope list_scope.
 Fixpoint nl_eqb (a b : list N) : bool := match a, b with [], [] => true | x :: a', y :: b' => N.eqb x y && nl_eqb a' b' | _, _ => false end.
 Fixpoint natl_eqb (a b : list nat) : bool := match a, b with [], [] => true | x :: a', y :: b' => Nat.eqb x y && natl_eqb a' b' | _, _ => false end.
@@ -398,6 +398,194 @@ def corr_tex(ck: Ck, base: str) -> None:
         ck.extra['tex_disagreement'] = [cases[i][:400] for i in bad[:3]]
 
 
+# ------------------------------------------------------------------------------------------------ entity lump text
+PRE_ENT = PRE_GLUE + '''
+Definition is_digit (c : N) : bool := (48 <=? c)%N && (c <=? 57)%N.
+Definition digits (l : list N) : bool := match l with [] => false | _ => forallb is_digit l end.
+Fixpoint dropws (l : list N) : list N := match l with c :: r => if (c =? 32)%N || (c =? 9)%N || (c =? 10)%N then dropws r else l | [] => [] end.
+Definition trim (l : list N) : list N := rev (dropws (rev (dropws l))).
+Definition int_ok (l0 : list N) : bool := let l := trim l0 in match l with 45%N :: r => digits r | 43%N :: r => digits r | _ => digits l end.
+Definition float_ok (l0 : list N) : bool := let l := trim l0 in match l with [] => false | _ => forallb (fun c => is_digit c || (c =? 46)%N || (c =? 45)%N || (c =? 43)%N || (c =? 101)%N) l end
+  && existsb is_digit l.
+Fixpoint nls_eqb (a b : list (list N)) : bool := match a, b with [], [] => true | x :: a', y :: b' => nl_eqb x y && nls_eqb a' b' | _, _ => false end.
+Definition item_eqb (a b : item) : bool := match a, b with IKV k v, IKV k' v' => nl_eqb k k' && nl_eqb v v' | IOut n f, IOut n' f' => nl_eqb n n' && nls_eqb f f' | _, _ => false end.
+Fixpoint items_eqb (a b : list item) : bool := match a, b with [], [] => true | x :: a', y :: b' => item_eqb x y && items_eqb a' b' | _, _ => false end.
+Fixpoint ents_eqb (a b : list (list item)) : bool := match a, b with [], [] => true | x :: a', y :: b' => items_eqb x y && ents_eqb a' b' | _, _ => false end.
+(* keyvalues first (in order), then outputs (in order): what the implementation's Entity keeps *)
+Definition canon (e : list item) : list item := filter (fun i => match i with IKV _ _ => true | _ => false end) e ++ filter (fun i => match i with IOut _ _ => true | _ => false end) e.
+Definition chk_ent_write (c : bool * list (list item) * list N) : bool :=
+  let '(comma, ents, bytes) := c in nl_eqb (write_ents ent_cfg (if comma then COMMA else ent_output_sep) ents) bytes.
+Definition chk_ent_read (c : list N * option (list (list item))) : bool :=
+  let '(bytes, expect) := c in
+  match ent_read float_ok int_ok bytes, expect with
+  | Some got, Some want => ents_eqb (map canon got) want
+  | None, None => true
+  | _, _ => false
+  end.
+Definition chk_ent_ok (c : list N * bool) : bool :=
+  let '(bytes, ok) := c in Bool.eqb (match ent_read float_ok int_ok bytes with Some _ => true | None => false end) ok.
+'''
+
+
+def corr_ent(ck: Ck) -> None:
+    """write_ents (template modes read from the source) vs BSP.write_ent_data byte for byte; ent_read vs _lmp_read_ents on the
+    written lumps (content) and on damaged lumps (accepted / rejected).  Directly: what is written must be read back."""
+    import srctools.bsp as B
+    from srctools.vmf import VMF, Entity, Output
+    rng = ck.rng
+    n = ck.budget(90, 1200)
+
+    def bs(x: str) -> bytes:
+        return x.encode('ascii', 'surrogateescape')
+
+    def txt(alpha: str, lens=(0, 1, 2, 4, 7)) -> str:
+        return ''.join(rng.choice(alpha) for _ in range(rng.choice(lens)))
+    A_KEY = 'abK_1 "\\nt\t\n\udce9'
+    A_VAL = 'abc01 "\\n\t\n\udce9,;'
+    wr, rd, okc = [], [], []
+    dmg_msgs: list[str] = []
+    for i in range(n):
+        comma = rng.random() < 0.5
+        vmf = VMF()
+        vmf.spawn['classname'] = 'worldspawn'
+        ents = [vmf.spawn]
+        for _ in range(rng.choice([0, 1, 2, 3])):
+            e = Entity(vmf, {'classname': rng.choice(['info_target', 'logic_relay'])})
+            vmf.add_ent(e)
+            ents.append(e)
+        for e in ents:
+            for _ in range(rng.choice([0, 1, 2, 4])):
+                k = txt(A_KEY, (1, 2, 3, 5))
+                if k.casefold() in ('classname', 'model', 'mapversion') or k == '\0':
+                    continue
+                if rng.random() < 0.2:      # a value that looks like an output in the old style
+                    parts = [txt('ab1', (0, 1, 2)) for _ in range(3)] + [rng.choice(['1', '0', '25', 'x', '', 'a1']), rng.choice(['1', '-1', '7', 'y', ''])]
+                    v = ','.join(parts)
+                else:
+                    v = txt(A_VAL)
+                    if v.count(',') == 4:
+                        v = v.replace(',', ';')
+                e[k] = v
+            for _ in range(rng.choice([0, 0, 1, 2])):
+                fa = 'abT1 "\\n\t\udce9' + ('' if comma else ',')
+                e.add_out(Output(txt(fa, (1, 3, 6)), txt(fa), txt(fa), txt(fa + ('\n' if True else '')),
+                                 rng.choice([0.0, 1.0, 0.5, 2.25, 10.0, 0.125, 1e6]), times=rng.choice([-1, 1, 5]), comma_sep=comma))
+        model = []
+        for e in ents:
+            its = [f'IKV {nlist(bs(k))} {nlist(bs(v))}' for k, v in e.items()]
+            its += [f'IOut {nlist(bs(o.exp_out()))} {coq_list(nlist(bs(x)) for x in (o.target, o.exp_in(), o.params, format(o.delay, "g"), str(o.times)))}'
+                    for o in e.outputs]
+            model.append(coq_list(its))
+        data = B.BSP.write_ent_data(vmf, comma, _show_dep=False)
+        wr.append(f'({"true" if comma else "false"}, {coq_list(model)}, {nlist(data)})')
+        ck.count('ent_lump_write_cases')
+        ck.hist('ent_lump_separator', 'comma' if comma else 'esc')
+        if any(c in data for c in b'\\'):
+            ck.seen(('ent', data))
+        b = B.BSP.__new__(B.BSP)
+        b.out_comma_sep = None
+        try:
+            back = b._lmp_read_ents(data)
+        except Exception as exc:   # noqa: BLE001
+            back = None
+            err = f'{type(exc).__name__}: {exc}'[:160]
+
+        def canon(e) -> list:
+            return [('kv', k, v) for k, v in e.items()] + [('out', o.exp_out(), o.target, o.exp_in(), o.params, format(o.delay, 'g'), o.times) for o in e.outputs]
+        want = [canon(e) for e in ents]
+        got = None if back is None else [canon(e) for e in [back.spawn] + list(back.entities)]
+        looks_like_output = any(v.count(',') == 4 for e in ents for _, v in e.items())
+        if got != want and not looks_like_output:
+            bad = next((j for j, (x, y) in enumerate(zip(want, got or [])) if x != y), 0)
+            specials = sorted({c for e in ents for k, _ in e.items() for c in k if c in '"\\'})
+            cls = ('key-with-quote-or-backslash' if specials and (back is None or [x for x in want[bad] if x[0] == 'kv'] != [x for x in (got[bad] if got and bad < len(got) else []) if x[0] == 'kv'])
+                   else 'unreadable' if back is None else 'content')
+            ck.violation('ents:text:' + cls,
+                         f'entity lump written by write_ent_data is read back {"with an error (" + err + ")" if back is None else "differently"}: '
+                         f'entity #{bad} wrote {want[bad]!r}' + ('' if got is None or bad >= len(got) else f', read {got[bad]!r}'),
+                         {'lump': list(data), 'comma_sep': comma, 'entity': bad, 'wrote': repr(want[bad]),
+                          'how': 'bsp._lmp_read_ents(bytes(lump)) after BSP.write_ent_data(vmf, comma_sep)'})
+        # reading direction of the model: the written lump (content), and a damaged copy (accepted or not)
+        if back is not None and all(len({k.casefold() for k, _ in e.items()}) == len(list(e.items())) for e in ents):
+            rd.append(f'({nlist(data)}, Some {coq_list(model_canon(e) for e in [back.spawn] + list(back.entities))})')
+            ck.count('ent_lump_read_cases')
+        dmg = bytearray(data)
+        first_end = data.index(b'}\n') + 2     # the worldspawn block stays intact: its classname test is not text-layer
+        if first_end >= len(data) - 1:
+            continue
+        for _ in range(rng.choice([1, 1, 2])):
+            k = rng.random()
+            pos = rng.randrange(first_end, len(dmg))
+            if k < 0.4:
+                del dmg[pos]
+            elif k < 0.7:
+                dmg.insert(pos, rng.choice(b'{}"\n '))
+            else:
+                dmg[pos] = rng.choice(b'{}"x')
+        if 0 in dmg[:-1] or b'/' in dmg or any(c in dmg for c in b"[]()=:+#'") or b'\r' in dmg:
+            continue        # comment / operator / bare-word syntax of the tokenizer is outside the model
+        b2 = B.BSP.__new__(B.BSP)
+        b2.out_comma_sep = None
+        msg = ''
+        try:
+            b2._lmp_read_ents(bytes(dmg))
+            ok = True
+        except Exception as exc:   # noqa: BLE001
+            ok = False
+            msg = str(exc)
+        if 'must be worldspawn' in msg:
+            continue        # the classname test of the first entity is not part of the text layer model
+        dmg_msgs.append(msg)
+        if not _bare_words(bytes(dmg)):
+            okc.append(f'({nlist(dmg)}, {"true" if ok else "false"})')
+            ck.count('ent_lump_damaged_cases')
+            ck.hist('ent_lump_damaged_outcome', 'accepted' if ok else 'rejected')
+    ck.sample({'ent_lump_case(comma_sep, entities as items, bytes written by write_ent_data)': wr[3][:400]})
+    b1 = _eval_cases(ck, 'chk_ent_write', 'bool * list (list item) * list N', wr, 'ent_w', IMPORTS_GLUE, PRE_ENT)
+    b2_ = _eval_cases(ck, 'chk_ent_read', 'list N * option (list (list item))', rd, 'ent_r', IMPORTS_GLUE, PRE_ENT)
+    b3 = _eval_cases(ck, 'chk_ent_ok', 'list N * bool', okc, 'ent_d', IMPORTS_GLUE, PRE_ENT)
+    if b1 is None or b2_ is None or b3 is None:
+        ck.obligation('correspondence:ent_lump', False, 'model could not be evaluated')
+        ck.tie_broken.append('correspondence entity lump: model evaluation failed')
+        return
+    ck.obligation('correspondence:ent_lump', not b1 and not b2_ and not b3,
+                  f'{len(wr)} entity lists written (Fmt/BspEntLump.v write_ents with the modes read from bsp.py/vmf.py vs write_ent_data, byte for byte), '
+                  f'{len(rd)} written lumps read (ent_read vs _lmp_read_ents: keys, values, outputs field by field), {len(okc)} damaged lumps '
+                  f'(accepted/rejected): {len(b1)} + {len(b2_)} + {len(b3)} disagreements')
+    if b1 or b2_ or b3:
+        ck.tie_broken.append('correspondence entity lump model vs bsp.py')
+        ck.extra['ent_disagreement'] = {'write': [wr[i][:500] for i in b1[:2]], 'read': [rd[i][:500] for i in b2_[:2]],
+                                        'damaged': [(bytes(int(x) for x in okc[i].split(']')[0][2:].split(';') if x).decode('latin1'), okc[i].split(',')[-1]) for i in b3[:6]]}
+
+
+def model_canon(e) -> str:
+    def bs(x: str) -> bytes:
+        return x.encode('ascii', 'surrogateescape')
+    its = [f'IKV {nlist(bs(k))} {nlist(bs(v))}' for k, v in e.items()]
+    its += [f'IOut {nlist(bs(o.exp_out()))} {coq_list(nlist(bs(x)) for x in (o.target, o.exp_in(), o.params, format(o.delay, "g"), str(o.times)))}'
+            for o in e.outputs]
+    return coq_list(its)
+
+
+def _bare_words(data: bytes) -> bool:
+    """Does the lump contain text outside quotes other than braces and white space (the tokenizer's bare strings)?"""
+    inq = False
+    i = 0
+    while i < len(data):
+        c = data[i]
+        if inq:
+            if c == 0x5c:
+                i += 1
+            elif c == 0x22:
+                inq = False
+        elif c == 0x22:
+            inq = True
+        elif c not in b'{} \n\t' and not (c == 0 and i == len(data) - 1):
+            return True
+        i += 1
+    return False
+
+
 # ------------------------------------------------------------------------------------------------ find_or_* correspondence
 def corr_find(ck: Ck) -> None:
     from srctools.binformat import find_or_extend, find_or_insert
@@ -689,6 +877,10 @@ def glue_obligations(glue: dict) -> dict[str, str]:
         'texdata_append_is_terminated': 'texcfg_append_terminated tex_cfg',
         'texdata_guard_fits_reader_window': 'texcfg_guard_fits_window tex_cfg',
         'texdata_codec_agrees': 'tex_codec_same',
+        'ent_key_is_escaped': 'entcfg_key_escaped ent_cfg',
+        'ent_value_is_escaped': 'entcfg_value_escaped ent_cfg',
+        'ent_output_text_fields_escaped': 'entcfg_output_ok ent_cfg',
+        'ent_output_separator_is_esc': 'N.eqb ent_output_sep ESC',
     }
     for r in glue.get('records', {}):
         obs[f'record_fields_agree:{r}'] = f'record_ok_named layouts streams records "{r}"'
@@ -780,6 +972,8 @@ def run(ck: Ck) -> None:
     if built:
         corr_tex(ck, base)
         lap('corr_tex')
+        corr_ent(ck)
+        lap('corr_ent')
     reject_probes(ck, base, wd)
     high_precision_delay_probe(ck, base, wd)
     lap('reject_probes')
@@ -793,6 +987,9 @@ def run(ck: Ck) -> None:
         ck.explain('correspondence:rle')
         ck.explain('correspondence:vis_row_size')
         ck.explain('instance:vis_')
+    if any(k.startswith('ents') for k in keys):
+        ck.explain('instance:ent_')
+        ck.explain('correspondence:ent_lump')
     if any(k.startswith('textures') or k.startswith('texinfo') for k in keys):
         ck.explain('instance:texdata_')
         ck.explain('correspondence:texdata_strings')
